@@ -17,6 +17,16 @@ CLAIMED = {
              "Driver/Enc.lean; output writer abstracted as an append-only sink (failures are C16).",
         technique="Lean 4 proof over hand-written model + translator-regenerated constants + differential correspondence",
         design="§4 C06"),
+    "C17": dict(
+        text="Lean 4 theorems over a model of Timestamp (explicit uint64/int64 arithmetic) against unbounded-integer "
+             "instants: offset_exact, add_inverse, add_refuses (all int64 offsets incl. INT64_MIN), rate_zero, lt_iff/le_iff, "
+             "addTimeOffset_no_overflow, and the block invariant earliest_le proved by induction over all arrival orders of "
+             "timed/untimed records (offsets_nonneg_and_recovered). Tied to the code by differential runs of the real "
+             "Timestamp and CdnsBlock (grid, boundaries, random, block histories written and read back) under UBSan.",
+        note="Trusted: Lean kernel + propext/Classical.choice/Quot.sound; harness/ts.cpp, Driver/Ts.lean; two's-complement "
+             "uint64->int64 conversion of g++/x86-64; UBSan for undefined arithmetic.",
+        technique="Lean 4 proof (arithmetic lemmas + invariant by induction over block operations) + differential correspondence",
+        design="§4 C17"),
 }
 REASON_PENDING = "check not built yet in this revision (work in progress; see DESIGN.md §8 build order)"
 
